@@ -113,6 +113,23 @@ def run(chk):
                 detail[tid] = {'examples': empty if not isinstance(empty, dict) else empty, 'options': {k: x for k, x in kw2.items() if k != 'size'},
                                'size': sizekw, 'first': [], 'second': r['rex']}
                 tid += 1
+    # seeded calls that END IN AN ERROR (an example that is not a string, bytes without an encoding): the caller's generator is as it was
+    for i in range(200 if thorough else 40):
+        good = [e for e in rx.rich_examples(rnd) if e is not None][:6] or ['ab']
+        bad = rnd.choice([good + [('a', 'tuple')], [b'bytes', b'without encoding'] + [g.encode('utf-8') for g in good],
+                          {b'k1': 2, b'k2': 1}, good + [3.5]])
+        kw = {'seed': rnd.randint(0, 9)}
+        if rnd.random() < 0.5:
+            from tdda.rexpy.rexpy import Size as Size_
+            kw['size'] = Size_(do_all=2, do_all_exceptions=2)
+        r, ok = call(bad, kw)
+        if r['raised'] == 'none':
+            continue            # (the library coped with it: nothing to say here)
+        events.append({'tid': tid, 'ev': 'Pair', 'kind': 'raising', 'raised': 'none', 'same': True, 'seeded': True, 'prngsame': ok, 'sampling': False})
+        detail[tid] = {'examples': repr(bad)[:300], 'form': 'a seeded call that raises (%s)' % r['raised'][:80], 'options': {'seed': kw['seed']},
+                       'size': None, 'first': [], 'second': []}
+        chk.coverage['replayed_cases'] += 1
+        tid += 1
     # the two-step entry point: Extractor(..., extract=False) now, x.extract() later, the global generator used in between
     from tdda.rexpy.rexpy import Extractor
     for i in range(600 if thorough else 120):
